@@ -41,13 +41,46 @@ def check(ctx):
   r4_bits(ctx)
   r5_tables(ctx)
   r6_deadline(ctx)
+  client_id_context(ctx)
   from . import c14
   ctx.rule('C14.R3', 'shared with C14: the Thrift call that ends every Tdispatch body is built from this call\'s own arguments (a fresh <method>_args(*args, **kwargs))')
   c14.r3(ctx)
   single_writer(ctx)
 
 
-def single_writer(ctx):
+def client_id_context(ctx):
+  """The client id given to the builder travels as the finagle ClientId context of every Tdispatch: the interceptor sink records it where the
+  serializer collects contexts from (the public message properties; the transport headers only if the serializer sink does not start from an
+  empty header dict), under the well-known public key."""
+  prog = ctx.prog
+  why = 'contexts of a Tdispatch are the public message properties plus the headers the serializer sink itself builds; the client id must be among them'
+  f = prog.func(TSINK, 'ClientIdInterceptorSink.AsyncProcessRequest')
+  ssf = prog.func(TSINK, 'ThriftMuxMessageSerializerSink.AsyncProcessRequest')
+  hp = ssf.params[4] if len(ssf.params) > 4 else 'headers'
+  hdr_rebound = any(isinstance(st, ast.Assign) and any(U(t) == hp for t in st.targets) for st in walk_no_nested(ssf.node))
+  msgp, hdrp = f.params[2], f.params[4]
+  channels = ['%s.properties' % msgp] + ([] if hdr_rebound else [hdrp])
+  n = 0
+  for ev, ex in enum_paths(ctx, f):
+    fwd = [i for i, e in enumerate(ev) if e.kind == 'call' and call_attr(e.node) == 'AsyncProcessRequest' and 'next_sink' in U(e.node.func)]
+    if not fwd:
+      continue
+    n += 1
+    st = [i for i, e in enumerate(ev[:fwd[0]]) if e.kind == 'stmt' and isinstance(e.node, ast.Assign) and isinstance(e.node.targets[0], ast.Subscript)
+          and U(e.node.targets[0].value) in channels and U(e.node.targets[0].slice).endswith('CLIENT_ID_HEADER') and U(e.node.value) == 'self._client_id']
+    ctx.ob('C13.R5', f, 'the client id is recorded as a context before the request is forwarded', len(st) == 1,
+           'client id stores into %s before forwarding: %d (the serializer sink %s)' % (channels, len(st), 'starts from an empty header dict: what an earlier sink puts in headers is dropped' if hdr_rebound else 'keeps the headers it is given'), why)
+  ctx.floor('C13.R5', 'forwarding paths of the client id interceptor', n, 1)
+  cls = prog.cls(TSINK, 'ClientIdInterceptorSink')
+  k = cls.consts.get('CLIENT_ID_HEADER')
+  ctx.ob('C13.R5', '%s:%d' % (TSINK, cls.node.lineno), 'ClientId context key', isinstance(k, ast.Constant) and k.value == 'com.twitter.finagle.thrift.ClientIdContext',
+         'CLIENT_ID_HEADER is %s' % (U(k) if k is not None else None), 'the key is fixed by the finagle protocol and must be public (not "__"-prefixed) to be sent', nontrivial=False)
+  ini = prog.func(TSINK, 'ClientIdInterceptorSink.__init__')
+  ok = any(isinstance(st_, ast.Assign) and U(st_.targets[0]) == 'self._client_id' and U(st_.value) == '%s.client_id' % ini.params[2] for st_ in walk_no_nested(ini.node))
+  ctx.ob('C13.R5', ini, 'the recorded id is the configured one', ok, 'self._client_id is not sink_properties.client_id', why, nontrivial=False)
+
+
+def single_writer(ctx, rule='C13.R3'):
   """Frames reach the socket through one greenlet: the send loop is the only writer of the mux connection."""
   prog = ctx.prog
   why = ('ScalesSocket.write is a loop of partial send() calls that yields when the kernel buffer is full: a second writer (a ping written directly, a reply to a '
@@ -59,7 +92,7 @@ def single_writer(ctx):
     for c in ast.walk(f.node):
       if isinstance(c, ast.Call) and isinstance(c.func, ast.Attribute) and c.func.attr in ('write', 'send', 'sendall') and U(c.func.value).endswith('_socket'):
         writers.append(f.qualname)
-  ctx.ob('C13.R3', prog.func(MUX, 'MuxSocketTransportSink._SendLoop'), 'the send loop is the only writer of the connection', sorted(set(writers)) == ['MuxSocketTransportSink._SendLoop'],
+  ctx.ob(rule, prog.func(MUX, 'MuxSocketTransportSink._SendLoop'), 'the send loop is the only writer of the connection', sorted(set(writers)) == ['MuxSocketTransportSink._SendLoop'],
          'the socket is written from %s' % sorted(set(writers)), why)
 
 
